@@ -2,6 +2,7 @@ import XPathV.Lemmas.PullProofs
 import XPathV.Generated.ExtraFacts
 import XPathV.Model.Api
 import XPathV.Lemmas.Facts
+import XPathV.Lemmas.PredSem
 /-!
 # C02 — boolean predicates keep exactly the nodes for which the predicate is true
 -/
@@ -74,5 +75,65 @@ theorem evaluate_restarts_from_any_state (d : Doc) (cfg : ECfg) (cur : Ref) (q :
     rem d cfg cur q.evaluate = rem d cfg cur q.clone ∧
     ∃ l, sel (F := F) d cfg q.plan cur = .ok l ∧ ∃ q' f0, ∀ f, f0 ≤ f → drain d cfg cur f q.evaluate = some (l, q') :=
   ⟨evaluate_resets d cfg cur q, drain_evaluate d cfg cur q⟩
+
+
+open XPathV.PathSem XPathV.PredSem in
+/-- **C02 (main theorem, through the builder with every rewrite)**.  Fragment `Frag true p`: location
+paths over the twelve axes in which the path start and every step may carry any number of
+boolean-valued predicates — existence tests, a path compared with a string literal (`=`, `!=`) or a
+number literal (all six operators, either side), `not()`, `and`, `or` — nested to any depth, with
+predicates inside predicates.  For every well-formed document and valid context node, the plan
+the builder makes (cachedChild, the `//name` shortcut, descendant-over-descendant, the merge
+rewrite all included) selects exactly the oracle's node set.  Hypotheses: navigator exposing
+namespace URIs, NoFnvCollision. -/
+theorem C02_main {d : Doc} (wf : WF d) (cfg : ECfg) (hns : cfg.nsIface = true)
+    (hinj : HashInj d cfg) (regexOk : RegexOk) (limit : Nat) (p : Ast) (hp : Frag true p)
+    (st : BState) (o : BOut) (hb : build regexOk limit true false p {} st = .ok o)
+    (c : Ref) (hc : validRef d c = true) :
+    ∃ out ns g, sel (F := F) d cfg o.q c = .ok out ∧
+      Spec.eval (F := F) d p ⟨c, 1, 1⟩ = .ok (.val (.nodes ns) g) ∧
+      ∀ x, x ∈ refs out ↔ x ∈ ns :=
+  PredSem.C02_main wf cfg hns hinj regexOk limit p hp st o hb c hc
+
+open XPathV.PathSem XPathV.PredSem in
+/-- **C02, the property as stated**: the built plan of `p[b]` returns a candidate node of `p` if
+and only if the predicate is true at that node (`holds` = `boolean()` of the oracle's value of `b`
+there) — on the model side and on the oracle side, and the two agree -/
+theorem C02_keeps_exactly_the_true_ones {d : Doc} (wf : WF d) (cfg : ECfg) (hns : cfg.nsIface = true)
+    (hinj : HashInj d cfg) (regexOk : RegexOk) (limit : Nat) (p b : Ast) (hp : Frag true p)
+    (hb : Frag false b) (st0 st : BState) (o0 o : BOut)
+    (hb0 : build regexOk limit true false p {} st0 = .ok o0)
+    (hb1 : build regexOk limit true false (.filter p b) {} st = .ok o)
+    (c : Ref) (hc : validRef d c = true) :
+    ∃ out0 ns0 g0 out ns g,
+      sel (F := F) d cfg o0.q c = .ok out0 ∧
+      Spec.eval (F := F) d p ⟨c, 1, 1⟩ = .ok (.val (.nodes ns0) g0) ∧
+      (∀ x, x ∈ refs out0 ↔ x ∈ ns0) ∧
+      sel (F := F) d cfg o.q c = .ok out ∧
+      Spec.eval (F := F) d (.filter p b) ⟨c, 1, 1⟩ = .ok (.val (.nodes ns) g) ∧
+      (∀ x, x ∈ refs out ↔ x ∈ ns) ∧
+      (∀ x, x ∈ refs out ↔ x ∈ refs out0 ∧ holds (F := F) d b x = true) ∧
+      (∀ x, x ∈ ns ↔ x ∈ ns0 ∧ holds (F := F) d b x = true) :=
+  PredSem.C02_main_keeps_true wf cfg hns hinj regexOk limit p b hp hb st0 st o0 o hb0 hb1 c hc
+
+open XPathV.PathSem XPathV.PredSem in
+/-- C02 at the builder configuration read off the current source (`shortcutCondSrc`,
+`filterInputFlagsSrc`), against the top-level oracle -/
+theorem C02_at_source_config {d : Doc} (wf : WF d) (cfg : ECfg) (hns : cfg.nsIface = true)
+    (hinj : HashInj d cfg) (regexOk : RegexOk) (limit : Nat) (p : Ast) (hp : Frag true p) (o : BOut)
+    (hb : build regexOk limit shortcutNeedsNodeTestFromSource smartDescThroughFilterFromSource p {} {} = .ok o)
+    (c : Ref) (hc : validRef d c = true) :
+    ∃ out ns, sel (F := F) d cfg o.q c = .ok out ∧
+      Spec.evalTop (F := F) d p c = .ok (.nodes ns) ∧ ∀ x, x ∈ refs out ↔ x ∈ ns :=
+  PredSem.C02_source_config wf cfg hns hinj regexOk limit p hp o hb c hc
+
+open XPathV.PathSem XPathV.PredSem in
+/-- one filter, sequence level: the filter keeps, in order, exactly the candidates whose
+predicate value (a boolean, string or node-set) is true -/
+theorem C02_filter_is_list_filter (d : Doc) (cfg : ECfg) (inp pred : Plan) (c : Ref) (ins : List Item)
+    (tr : Ref → Bool) (hs : sel (F := F) d cfg inp c = .ok ins)
+    (hv : ∀ it ∈ ins, ∃ v, evalP (F := F) d cfg pred it.r = .ok v ∧ IsBSN v ∧ truthM v = tr it.r) :
+    ∃ out, sel (F := F) d cfg (.filter inp pred) c = .ok out ∧ refs out = (refs ins).filter tr :=
+  sel_filter_bool d cfg inp pred c ins tr hs hv
 
 end XPathV.Theorems.C02
